@@ -98,21 +98,29 @@ func (s *secureSession) Decrypt(r io.Reader) (io.Reader, error) {
 
 	var buf bytes.Buffer
 	for {
-		var length uint16
-		if err := binary.Read(r, binary.LittleEndian, &length); err != nil {
-			if err == io.EOF {
+		var header [2]byte
+		if n, err := io.ReadFull(r, header[:]); err != nil {
+			if n == 0 && (err == io.EOF || buf.Len() > 0) {
+				// between two frames: hand out what was decrypted so far
 				break
+			}
+			if n > 0 {
+				// inside a frame: the stream is out of step from here on
+				s.decryptErr = err
 			}
 			return nil, err
 		}
+		length := binary.LittleEndian.Uint16(header[:])
 
 		var b = make([]byte, length)
 		if err := binary.Read(r, binary.LittleEndian, &b); err != nil {
+			s.decryptErr = err
 			return nil, err
 		}
 
 		var mac [16]byte
 		if err := binary.Read(r, binary.LittleEndian, &mac); err != nil {
+			s.decryptErr = err
 			return nil, err
 		}
 
